@@ -50,6 +50,11 @@ func c03Systems() []*HistSys {
 		out = append(out, &HistSys{Class: c, Cfg: cfgTwoPools(false), NPods: 2, Replicas: 2, Ops: histOpsAll, PrefixName: "allbound",
 			Prefix: []Op{{Kind: "create", A: 0}, {Kind: "sched", A: 0}, {Kind: "create", A: 1}, {Kind: "sched", A: 1}}})
 	}
+	// pods whose keys are in a prefix relation (a-1 / a-10)
+	for _, c := range []wkClass{{"stspfx", ""}, {"stspfx", "immutable"}} {
+		out = append(out, &HistSys{Class: c, Cfg: cfgTwoPools(false), NPods: 2, Replicas: 11, Ops: histOpsAll, PrefixName: "allbound",
+			Prefix: []Op{{Kind: "create", A: 0}, {Kind: "sched", A: 0}, {Kind: "create", A: 1}, {Kind: "sched", A: 1}}})
+	}
 	for _, c := range []wkClass{{"sts", "immutable"}, {"sts", "never"}, {"dppool", ""}, {"dp", "never"}, {"bare", "never"}} {
 		out = append(out, &HistSys{Class: c, Cfg: cfgTwoPools(false), NPods: 1, Replicas: 2, Ops: histOpsSync, PrefixName: "syncpath",
 			Prefix: []Op{{Kind: "create", A: 0}, {Kind: "sched", A: 0}}})
